@@ -584,6 +584,19 @@ def gen_frame(rng, thorough):
     return {'kind': 'frame', 'preset': preset, 'cols': cols, 'other': other, 'kinds': kinds}
 
 
+def gen_long_frame(rng):
+    """one numeric column longer than the default mini-batch (2^14 rows): formulas that use a statistic of the WHOLE column
+    (np.max, np.mean, ...) must see all of it.  The first 2^14 rows are spread over the whole value range (so that the
+    max-relative transformers give a balanced, i.e. KEPT, column), the rows after them only take the low values: any evaluation
+    in row blocks sees another maximum there."""
+    n = rng.choice([16385, 16400, 20000, 33000])
+    hi = rng.choice([10, 10, 16, 100])
+    pool = [str(v) for v in range(1, hi + 1)] if hi <= 16 else [str(v) for v in (1, 2, 5, 10, 20, 40, 60, 80, 100)]
+    low = pool[:max(2, len(pool) // 3)]
+    col = [rng.choice(pool) for _ in range(2 ** 14)] + [rng.choice(low) for _ in range(n - 2 ** 14)]
+    return {'kind': 'frame', 'preset': rng.choice(['default', 'minimal,default', 'default']), 'cols': {'f': col}, 'other': {}, 'kinds': ['long']}
+
+
 def eval_frames(ctx: Ctx, cases, oracle_only=False):
     T = model_tables()
     spec = T['spec']
@@ -807,7 +820,7 @@ def run(ctx: Ctx):
     logging.disable(logging.INFO)            # the module under test logs two INFO lines per frame
     rng = ctx.rng
     float_boundaries(ctx, 20000 if ctx.thorough() else 3000)
-    cases = corpus() + select_cases(rng, ctx.thorough())
+    cases = corpus() + select_cases(rng, ctx.thorough()) + [gen_long_frame(rng) for _ in range(6 if ctx.thorough() else 2)]
     cases += [gen_frame(rng, ctx.thorough()) for _ in range(4000 if ctx.thorough() else 400)]
     evaluate(ctx, cases)
 
@@ -817,7 +830,7 @@ def search(ctx: Ctx):
     logging.disable(logging.INFO)
     sub = Ctx(ctx.prop, ctx.tier)
     sub.rng.seed(f'search:{ctx.seed}')
-    cases = corpus() + select_cases(sub.rng, True) + [gen_frame(sub.rng, True) for _ in range(600)]
+    cases = corpus() + select_cases(sub.rng, True) + [gen_frame(sub.rng, True) for _ in range(600)] + [gen_long_frame(sub.rng) for _ in range(4)]
     evaluate(sub, cases, oracle_only=True)
     return sub.oracle_failures
 
